@@ -8,20 +8,10 @@ Driver for the curve constructors of C15 (Model/Suyama.lean) over canonical resi
 namespace Ymq.Drv
 open Ymq.Suyama Ymq.Gen.Curves Ymq.Chain
 
-/-- extended Euclid on integers: `(g, s)` with `s * a ≡ g (mod n)` -/
-def xgcdAux : Nat → Int → Int → Int → Int → Int × Int
-  | 0, r0, _, s0, _ => (r0, s0)
-  | f + 1, r0, r1, s0, s1 =>
-    if r1 = 0 then (r0, s0) else
-    let q := r0 / r1
-    xgcdAux f r1 (r0 - q * r1) s1 (s0 - q * s1)
-
-/-- `arith_gcd::inv_mod(a, n)` at its specification (C09): the inverse in `[0, n)` when `gcd = 1` -/
-def invNat (a n : Nat) : Option Nat :=
-  let (g, s) := xgcdAux (2 * Nat.log2 (a + n + 1) + 8) (a % n) n 1 0
-  if g = 1 then some (s % n).toNat else none
-
-/-- the context of `ZmodN::new(n)` on canonical residues -/
+/-- the context of `ZmodN::new(n)` on residues as bare naturals: used by the stage-by-stage op `suyama`, by
+Drv/Ecm128Curve.lean, and for the degenerate modulus `n = 0`. The ops `curve_build`, `from_point`, `ecm_select` run
+`finCtx n` (Model/Suyama.lean), the context proved lawful in Lemmas/CurveBuildFin.lean, through the functions
+`suyamaNewFin`, `suyamaCurveFin`, `fromPointFin`, `selectCurveFin` that Props/C15Suyama.lean speaks about. -/
 def znCtx (n : Nat) : Ctx (Zn n) where
   n := n
   inv := fun x => (invNat x.v n).map fun i => ⟨i % n⟩
@@ -90,6 +80,40 @@ def ecmSelect (chk : Bool) (n curves : Nat) : String :=
       go seeds
   | _ => "panic"        -- `Suyama11::new(&zn).unwrap()`
 
+def showCurveF {n} (c : CurveData (Fin n)) : String :=
+  s!"{if c.twisted then "-1" else "1"} {c.d.val} {c.g.x.val} {c.g.y.val} {c.g.z.val}"
+
+/-- `ecmSelect` on the lawful context `finCtx n` (`n > 0`): what the op `ecm_select` answers -/
+def ecmSelectFin (chk : Bool) (n : Nat) [NeZero n] (curves : Nat) : String :=
+  match suyamaNewFin n chk with
+  | .ok (a, b, gx, gy) =>
+    match ecmSeeds n curves with
+    | none => "panic"
+    | some seeds =>
+      let rec go : List Nat → String
+        | [] => "none"
+        | s :: rest =>
+          match selectCurveFin n chk a b gx gy s with
+          | .curve _ => s!"curve {s}"
+          | .factor p => s!"{p} {n / p}"
+          | .none => go rest
+          | .panic => "panic"
+      go seeds
+  | _ => "panic"        -- `Suyama11::new(&zn).unwrap()`
+
+/-- `curve_build` / `from_point` on `finCtx n` -/
+def curveBuildFin (chk : Bool) (n : Nat) [NeZero n] (fam : String) (seed : Nat) : Option String :=
+  match fam with
+  | "s" =>
+    match suyamaNewFin n chk with
+    | .ok (a, b, gx, gy) => some (showRes showCurveF (suyamaCurveFin n a b gx gy seed))
+    | .err f => some s!"err {f}"
+    | .panic => some "panic"
+  | "e" =>
+    let fb := fallbackPoint seed
+    some (showRes showCurveF (fromPointFin n chk fb.1 fb.2))
+  | _ => none
+
 /-- `ecm128::ecm(n, curves, ..)` likewise -/
 def ecm128Select (n curves : Nat) : String :=
   let ctx := znCtx n
@@ -112,6 +136,7 @@ def handleSuyama : Handler
     some (suyamaStages n seed)
   | ["curve_build", prof, n, fam, seed] => do
     let chk ← parseProf prof; let n ← parseNat n; let seed ← parseNat seed
+    if h : n = 0 then
     let ctx := znCtx n
     match fam with
     | "s" =>
@@ -123,13 +148,20 @@ def handleSuyama : Handler
       let fb := fallbackPoint seed
       some (showRes showCurve (fromPoint chk ctx fb.1 fb.2))
     | _ => none
+    else
+      haveI : NeZero n := ⟨h⟩
+      curveBuildFin chk n fam seed
   | ["from_point", prof, n, x, y] => do
     let chk ← parseProf prof; let n ← parseNat n; let x ← parseNat x; let y ← parseNat y
     if x ≥ W ∨ y ≥ W then none else
-    some (showRes showCurve (fromPoint chk (znCtx n) x y))
+    if h : n = 0 then some (showRes showCurve (fromPoint chk (znCtx n) x y)) else
+      haveI : NeZero n := ⟨h⟩
+      some (showRes showCurveF (fromPointFin n chk x y))
   | ["ecm_select", prof, n, curves] => do
     let chk ← parseProf prof; let n ← parseNat n; let curves ← parseNat curves
-    some (ecmSelect chk n curves)
+    if h : n = 0 then some (ecmSelect chk n curves) else
+      haveI : NeZero n := ⟨h⟩
+      some (ecmSelectFin chk n curves)
   | ["ecm128_select", n, curves] => do
     let n ← parseNat n; let curves ← parseNat curves
     some (ecm128Select n curves)
